@@ -53,6 +53,8 @@ func runC12(c *Config, r *Report) {
 	c12R10(ic, r)
 	c12R11(ic, r)
 	c12R13(ic, r)
+	c12R15(ic, r)
+	c12R16(ic, r)
 	{
 		// R12.14 = R06.15: an ill-typed program that makes a compile pass fault is rejected with
 		// an error, not with a panic of the host
